@@ -85,10 +85,39 @@ def generated_programs(ctx, work, n):
     return out
 
 
-def build_jobs(progs, probes, work, versions=T.VERSIONS):
+def geometry_programs(ctx, work):
+    """line-geometry grid (pylib/c14_gen.py): gap before a construct x lines of its body x kind of construct; enumerated
+    in thorough, a seeded sample (half of it from the cells whose sums cross a byte boundary) in quick.  Compiled for the
+    targets whose line-table format erg writes (<= 3.9); 3.10/3.11 tables are under the known finding."""
+    dst = os.path.join(work, "geo")
+    os.makedirs(dst, exist_ok=True)
+    if ctx.thorough:
+        cells = GEN.geometry_grid()
+        ctx.rng.shuffle(cells)
+        ctx.cov["line_geometry"] = "all %d cells of %d gaps x %d body lengths x %d shapes" % (
+            len(cells), len(GEN.GAPS), len(GEN.BODIES), len(GEN.SHAPES))
+    else:
+        cells = GEN.sample_cells(ctx.rng, 32)
+        ctx.cov["line_geometry"] = "%d sampled cells of the %d-cell grid" % (len(cells), len(GEN.geometry_grid()))
+    out = []
+    for i in range(0, len(cells), 8):
+        chunk = cells[i:i + 8]
+        txt = GEN.geometry_program(ctx.rng, chunk, uid0=i)
+        p = os.path.join(dst, "geo%04d.er" % i)
+        open(p, "w").write(txt)
+        out.append({"id": "geo/geo%04d" % i, "path": p, "kind": "gen-geometry", "cwd": dst, "text": txt,
+                    "versions": ["3.7", "3.8", "3.9"], "cells": chunk})
+        for g, n, shape in chunk:
+            ctx.count("geometry:" + shape)
+    return out
+
+
+def build_jobs(progs, probes, work, versions=None):
+    explicit = versions is not None
+    versions = versions or T.VERSIONS
     jobs = []
     for p in progs:
-        for v in (p.get("versions") or versions):
+        for v in (versions if explicit else (p.get("versions") or versions)):
             h = hashlib.sha1(p["id"].encode()).hexdigest()[:10]
             jobs.append(dict(src=p["path"], ver=v, magic=probes[v]["magic"], cwd=p["cwd"], prog=p,
                              outdir=os.path.join(work, "out", v, h)))
@@ -102,13 +131,13 @@ class Batch:
     def __init__(self, ctx, probes, model, erg, work):
         self.ctx, self.probes, self.model, self.erg, self.work = ctx, probes, model, erg, work
 
-    def run(self, progs, versions=T.VERSIONS):
+    def run(self, progs, versions=None):
         t0 = time.time()
         jobs = R.compile_jobs(self.erg, self.ctx.erg_env(), build_jobs(progs, self.probes, self.work, versions))
         self.t_compile = getattr(self, "t_compile", 0) + time.time() - t0
         results = []   # dict(prog, ver, rec, out, clauses, corr)
         self.failed = [j for j in jobs if "pyc" not in j]
-        for v in versions:
+        for v in (versions or T.VERSIONS):
             js = [j for j in jobs if j["ver"] == v and "pyc" in j]
             by_pyc = {j["pyc"]: j for j in js}
             t0 = time.time()
@@ -319,7 +348,8 @@ def run(ctx):
                        "version and loaded by that interpreter; programs: every .er under examples/ and tests/should_ok/ that compiles "
                        "(quick: a seeded sample), regression corpus, generated programs (definitions, arithmetic, closures, lambdas, "
                        "if/match, for!/while!, procedures, classes, collections, with!, >256 names/constants, long jumps, line gaps "
-                       ">127/>255, long lines); non-trivial = distinct (version, bytecode, line table, stacksize) with >= 4 instructions")
+                       ">127/>255, long lines); plus a line-geometry grid (gap before a construct x body lines x def/lambda/class/nested, values around 127/128/255/256) for "
+                       "the <= 3.9 targets; non-trivial = distinct (version, bytecode, line table, stacksize) with >= 4 instructions")
     ctx.cov["trusted_base"] = ["Coq 8.16.1 kernel", "extraction (ExtrOcamlBasic only) + extract/driver.ml",
                                "pylib/c14_probe.py (dump of dis tables, dis.stack_effect, code object fields by each target interpreter)",
                                "pylib/c14_tables.py: hand-listed no-fall-through opcodes, 3.7 jump/fall-through split (checked against 3.8)",
@@ -342,8 +372,8 @@ def run_in(ctx, probes, proof, erg, model, work):
     corpus = corpus_programs(work)
     if not ctx.thorough:
         corpus = ctx.rng.sample(corpus, min(len(corpus), 12))
-    progs = regression_programs(work) + corpus + generated_programs(ctx, work, ctx.scale(14, 300))
-    ctx.log("compiling %d programs x %d versions" % (len(progs), len(T.VERSIONS)))
+    progs = regression_programs(work) + corpus + generated_programs(ctx, work, ctx.scale(14, 300)) + geometry_programs(ctx, work)
+    ctx.log("compiling %d programs x up to %d versions" % (len(progs), len(T.VERSIONS)))
     results = batch.run(progs)
     ctx.log("validated %d code objects (compile %.0fs, dump %.0fs, validator %.0fs, reference %.0fs)" % (
         len(results), batch.t_compile, batch.t_dump, batch.t_model, batch.t_cmp))
